@@ -2,6 +2,7 @@ package main
 
 import (
 	"fmt"
+	"strings"
 	"go/ast"
 	"go/token"
 	"go/types"
@@ -75,151 +76,7 @@ func checkC18(w *World, r *Report) {
 	r.Rule("R18.5", 2, "every registration passes the reserved-type test on the Type of the descriptor being inserted")
 
 	// ---- R18.1
-	{
-		fi := ro.resolve
-		r.Analysed(fi)
-		info := fi.Pkg.TypesInfo
-		var recv types.Object
-		if fi.Decl.Recv != nil && len(fi.Decl.Recv.List[0].Names) == 1 {
-			recv = info.Defs[fi.Decl.Recv.List[0].Names[0]]
-		}
-		// the built-in dispatch: (type variable, body) pairs from a switch on X.Type or from an
-		// if / else-if chain comparing X.Type with the type variables
-		type arm struct {
-			e    ast.Expr
-			body []ast.Stmt
-			pos  token.Pos
-		}
-		var arms []arm
-		var guard *ast.IfStmt
-		var dispatchPos token.Pos
-		isReflectType := func(e ast.Expr) bool {
-			tv, ok := info.Types[e]
-			return ok && isNamedType(tv.Type, "reflect", "Type") && isFieldNamed(info, e, "Type")
-		}
-		ast.Inspect(fi.Decl.Body, func(x ast.Node) bool {
-			ifs, ok := x.(*ast.IfStmt)
-			if !ok || guard != nil {
-				return true
-			}
-			for _, st := range ifs.Body.List {
-				switch s := st.(type) {
-				case *ast.SwitchStmt:
-					if s.Tag != nil && isReflectType(s.Tag) {
-						guard, dispatchPos = ifs, s.Pos()
-						for _, cl := range s.Body.List {
-							cc := cl.(*ast.CaseClause)
-							for _, e := range cc.List {
-								arms = append(arms, arm{e, cc.Body, cc.Pos()})
-							}
-						}
-					}
-				case *ast.IfStmt:
-					var chain []arm
-					cur := s
-					for cur != nil {
-						be, ok := unparen(cur.Cond).(*ast.BinaryExpr)
-						if !ok || be.Op != token.EQL {
-							chain = nil
-							break
-						}
-						var v ast.Expr
-						if isReflectType(be.X) {
-							v = be.Y
-						} else if isReflectType(be.Y) {
-							v = be.X
-						} else {
-							chain = nil
-							break
-						}
-						chain = append(chain, arm{v, cur.Body.List, cur.Pos()})
-						next, _ := cur.Else.(*ast.IfStmt)
-						if cur.Else != nil && next == nil {
-							chain = nil
-							break
-						}
-						cur = next
-					}
-					if len(chain) >= 2 {
-						guard, dispatchPos = ifs, s.Pos()
-						arms = chain
-					}
-				}
-			}
-			return true
-		})
-		if guard == nil {
-			r.Fail("R18.1", fi.Name()+"#builtin-switch", fi.Decl.Pos(), "resolution has no dispatch on the requested type that serves the built-in services")
-		} else {
-			want := map[string]string{"context.Context": "context", "godi.Provider": "rootProvider", "godi.Scope": "<receiver>"}
-			seen := map[string]bool{}
-			for _, am := range arms {
-				e := am.e
-				cc := struct{ Body []ast.Stmt }{am.body}
-				ccPos := am.pos
-				{
-					target := typeVarTarget(w, objOf(info, e))
-					con := fi.Name() + "#builtin:" + target
-					wantField, known := want[target]
-					if !known {
-						r.Fail("R18.1", con, ccPos, "the built-in dispatch has a case for %s (%s), which is not one of the three reserved types", exprStr(e), target)
-						continue
-					}
-					seen[target] = true
-					bad := ""
-					if len(cc.Body) != 1 {
-						bad = "the case does more than return the built-in value"
-					} else if ret, ok := cc.Body[0].(*ast.ReturnStmt); !ok || len(ret.Results) != 2 || !isNilIdent(info, ret.Results[1]) {
-						bad = "the case does not return (value, nil)"
-					} else {
-						val := unparen(ret.Results[0])
-						if wantField == "<receiver>" {
-							if objOf(info, val) != recv {
-								bad = "it returns " + exprStr(val) + " instead of the resolving scope itself"
-							}
-						} else {
-							fv := fieldOf(info, val)
-							if fv == nil || w.canonName(fv) != wantField || objOf(info, selBase(val)) != recv {
-								bad = "it returns " + exprStr(val) + " instead of the resolving scope's own " + wantField
-							}
-						}
-					}
-					r.Check(bad == "", "R18.1", con, ccPos, true, target+" resolves to the resolving scope's own value", "built-in "+target+": "+bad)
-				}
-			}
-			for t := range want {
-				if !seen[t] {
-					r.Fail("R18.1", fi.Name()+"#builtin:"+t, dispatchPos, "the built-in dispatch has no case for %s", t)
-				}
-			}
-			// guard: key.Key == nil && key.Group == ""
-			g := exprStr(guard.Cond)
-			okGuard := false
-			if be, ok := unparen(guard.Cond).(*ast.BinaryExpr); ok && be.Op == token.LAND {
-				okGuard = containsFold(g, ".Key == nil") && containsFold(g, ".Group == \"\"")
-			}
-			r.Check(okGuard, "R18.1", fi.Name()+"#builtin-guard", guard.Pos(), false,
-				"built-ins are served for unkeyed, ungrouped requests only", "the built-in switch is guarded by "+g+", not by `Key == nil && Group == \"\"`")
-			// precedes the registry lookup
-			fl := w.FlowOf(fi)
-			sol := fl.Solve(Spec{Must: true, Node: func(n ast.Node, in Facts) (gen, kill []string) {
-				if e, ok := n.(ast.Expr); ok && guard.Cond.Pos() <= e.Pos() && e.End() <= guard.Cond.End() {
-					gen = append(gen, "guard-evaluated")
-				}
-				return
-			}})
-			n := 0
-			for _, nd := range fl.Nodes() {
-				for _, c := range callsIn(nd, false) {
-					if cal := callee(info, c); w.IsFn(cal, w.Godi, "(*provider).findDescriptor") {
-						n++
-						r.Check(sol.Before[nd].Has("guard-evaluated"), "R18.1", fmt.Sprintf("%s#lookup-after-builtins/%d", fi.Name(), n), c.Pos(), true,
-							"the registry lookup is only reached after the built-in test", "the registry is consulted before the built-in services: a registration could shadow them")
-					}
-				}
-			}
-		}
-	}
+	ruleBuiltins(w, r, ro)
 
 	// ---- R18.2
 	{
@@ -325,6 +182,12 @@ func checkC18(w *World, r *Report) {
 			if fv := fieldOf(info, as.Lhs[0]); fv != nil && w.canonName(fv) == "context" && objOf(info, selBase(as.Lhs[0])) == sObj {
 				found = true
 				good := objOf(info, as.Rhs[0]) == ctxParam && sol.Before[n].Has("ctx=withvalue(parent,key,scope)")
+				// or the field receives the WithValue call directly
+				if c, isC := unparen(as.Rhs[0]).(*ast.CallExpr); isC && isFunc(callee(info, c), "context", "", "WithValue") && len(c.Args) == 3 {
+					bf := sol.Before[n]
+					good = objOf(info, c.Args[0]) == ctxParam && (bf.Has("ctx=param") || bf.Has("ctx=param-or-background")) &&
+						objOf(info, c.Args[2]) == sObj && sObj != nil && isScopeKeyLit(info, c.Args[1])
+				}
 				def, _ := sol.Before[n].HasPrefix("ctx=")
 				r.Check(good, "R18.3", fi.Name()+"#scope.context", as.Pos(), true,
 					"the scope's context is WithValue(caller's context, scopeContextKey{}, this scope)",
@@ -567,4 +430,233 @@ func isScopeKeyLit(info *types.Info, e ast.Expr) bool {
 func isCallTo(info *types.Info, e ast.Expr, pkg, name string) bool {
 	c, ok := unparen(e).(*ast.CallExpr)
 	return ok && isFunc(callee(info, c), pkg, "", name)
+}
+
+// ruleBuiltins: R18.1 on the control-flow graph. The function that serves the
+// built-in types is the one, among resolve and its private helpers, that
+// compares a reflect.Type field of the requested key with the package's type
+// variables (switch or ifs). On every exit that a test "Type == <var>" dominates
+// the value returned is the resolving scope's own context / root provider /
+// itself, and the facts Key == nil and Group == "" hold there.
+func ruleBuiltins(w *World, r *Report, ro *roles) {
+	top := ro.resolveTop
+	r.Analysed(top)
+	want := map[string]string{"context.Context": "context", "godi.Provider": "rootProvider", "godi.Scope": "<receiver>"}
+	type typeTest struct {
+		target string
+		pos    token.Pos
+	}
+	// the dispatching function and its tests
+	var disp *FuncInfo
+	tests := map[ast.Expr]typeTest{} // case expressions and == comparisons
+	for _, f := range w.Within(top, 2) {
+		if ro.isCreate(f.Obj) || f == ro.setInstance {
+			continue
+		}
+		info := f.Pkg.TypesInfo
+		isReqType := func(e ast.Expr) bool {
+			tv, ok := info.Types[e]
+			return ok && isNamedType(tv.Type, "reflect", "Type") && isFieldNamed(info, e, "Type")
+		}
+		found := map[ast.Expr]typeTest{}
+		ast.Inspect(f.Decl.Body, func(x ast.Node) bool {
+			switch s := x.(type) {
+			case *ast.SwitchStmt:
+				if s.Tag != nil && isReqType(s.Tag) {
+					for _, cl := range s.Body.List {
+						for _, e := range cl.(*ast.CaseClause).List {
+							if t := typeVarTarget(w, objOf(info, e)); t != "" {
+								found[e] = typeTest{t, e.Pos()}
+							}
+						}
+					}
+				}
+			case *ast.BinaryExpr:
+				if s.Op == token.EQL {
+					for _, pair := range [][2]ast.Expr{{s.X, s.Y}, {s.Y, s.X}} {
+						if isReqType(pair[0]) {
+							if t := typeVarTarget(w, objOf(info, pair[1])); t != "" {
+								found[s] = typeTest{t, s.Pos()}
+							}
+						}
+					}
+				}
+			}
+			return true
+		})
+		if len(found) >= 2 && disp == nil {
+			disp, tests = f, found
+		}
+	}
+	if disp == nil {
+		r.Fail("R18.1", top.Name()+"#builtin-switch", top.Decl.Pos(), "resolution has no dispatch on the requested type that serves the built-in services")
+		return
+	}
+	r.Analysed(disp)
+	info := disp.Pkg.TypesInfo
+	var recv types.Object
+	if disp.Decl.Recv != nil && len(disp.Decl.Recv.List[0].Names) == 1 {
+		recv = info.Defs[disp.Decl.Recv.List[0].Names[0]]
+	}
+	fl := w.FlowOf(disp)
+	ce := condEdge(w, info, 2)
+	sol := fl.Solve(Spec{Must: true, Edge: func(b *cfg.Block, i int, cond ast.Expr, in Facts) (gen, kill []string) {
+		if cond == nil {
+			return
+		}
+		if t, ok := tests[cond]; ok {
+			if i == 0 {
+				gen = append(gen, "type=="+t.target)
+			}
+			return
+		}
+		if t, ok := tests[unparen(cond)]; ok {
+			if i == 0 {
+				gen = append(gen, "type=="+t.target)
+			}
+			return
+		}
+		return ce(b, i, cond, in)
+	}})
+	seen := map[string]bool{}
+	for _, t := range tests {
+		if _, known := want[t.target]; !known {
+			r.Fail("R18.1", disp.Name()+"#builtin:"+t.target, t.pos, "the built-in dispatch has a case for %s, which is not one of the three reserved types", t.target)
+		}
+	}
+	for _, ex := range fl.Exits() {
+		at := sol.AtExit(ex)
+		target := ""
+		for k := range at {
+			if strings.HasPrefix(k, "type==") {
+				target = strings.TrimPrefix(k, "type==")
+			}
+		}
+		wantField, known := want[target]
+		if target == "" || !known {
+			continue
+		}
+		con := disp.Name() + "#builtin:" + target
+		if seen[target] {
+			con += "/" + fmt.Sprint(ex.Pos)
+		}
+		seen[target] = true
+		bad := ""
+		if ex.Ret == nil || len(ex.Ret.Results) != 2 {
+			bad = "the case does not return (value, nil)"
+		} else {
+			second := unparen(ex.Ret.Results[1])
+			if !isNilIdent(info, second) && exprStr(second) != "true" {
+				bad = "the case does not return the built-in value as a success"
+			}
+			val := unparen(ex.Ret.Results[0])
+			if wantField == "<receiver>" {
+				if objOf(info, val) != recv {
+					bad = "it returns " + exprStr(val) + " instead of the resolving scope itself"
+				}
+			} else {
+				fv := fieldOf(info, val)
+				if fv == nil || w.canonName(fv) != wantField || objOf(info, selBase(val)) != recv {
+					bad = "it returns " + exprStr(val) + " instead of the resolving scope's own " + wantField
+				}
+			}
+		}
+		r.Check(bad == "", "R18.1", con, ex.Pos, true, target+" resolves to the resolving scope's own value", "built-in "+target+": "+bad)
+		// guard: Key == nil && Group == "" hold here
+		keyNil, groupEmpty := false, false
+		for k := range at {
+			if strings.HasSuffix(k, ".Key=nil") {
+				keyNil = true
+			}
+			if strings.HasSuffix(k, ".Group=empty") {
+				groupEmpty = true
+			}
+		}
+		r.Check(keyNil && groupEmpty, "R18.1", con+":guard", ex.Pos, true,
+			"built-ins are served for unkeyed, ungrouped requests only",
+			fmt.Sprintf("the built-in %s is served without the request having been found unkeyed and ungrouped (Key==nil known: %v, Group==\"\" known: %v): a keyed or group request for the type is answered with the built-in", target, keyNil, groupEmpty))
+	}
+	for t := range want {
+		if !seen[t] {
+			r.Fail("R18.1", disp.Name()+"#builtin:"+t, disp.Decl.Pos(), "the built-in dispatch has no case for %s", t)
+		}
+	}
+	// in a helper: the caller returns the helper's value unchanged on its success edge
+	tinfo := top.Pkg.TypesInfo
+	tfl := w.FlowOf(top)
+	var helperVal, helperOK types.Object
+	if disp != top {
+		for _, nd := range tfl.Nodes() {
+			if as, ok := nd.(*ast.AssignStmt); ok && len(as.Rhs) == 1 && len(as.Lhs) == 2 {
+				if c, ok := unparen(as.Rhs[0]).(*ast.CallExpr); ok && callee(tinfo, c) == disp.Obj {
+					helperVal, helperOK = objOf(tinfo, as.Lhs[0]), objOf(tinfo, as.Lhs[1])
+				}
+			}
+		}
+		bad := "the result of " + disp.Name() + " is not bound to (value, ok)"
+		if helperVal != nil && helperOK != nil {
+			bad = "no exit returns the value of " + disp.Name() + " on its success edge"
+			hs := tfl.Solve(Spec{Must: true, Edge: func(b *cfg.Block, i int, cond ast.Expr, in Facts) (gen, kill []string) {
+				if cond == nil {
+					return
+				}
+				c := unparen(cond)
+				if objOf(tinfo, c) == helperOK && i == 0 {
+					gen = append(gen, "served")
+				}
+				if be, ok := c.(*ast.BinaryExpr); ok && isErrorType(helperOK.Type()) {
+					if (objOf(tinfo, be.X) == helperOK && isNilIdent(tinfo, be.Y)) && (be.Op == token.EQL) == (i == 0) {
+						gen = append(gen, "served")
+					}
+				}
+				return
+			}})
+			for _, ex := range tfl.Exits() {
+				if hs.AtExit(ex).Has("served") && ex.Ret != nil && len(ex.Ret.Results) == 2 {
+					if objOf(tinfo, ex.Ret.Results[0]) == helperVal && isNilIdent(tinfo, ex.Ret.Results[1]) {
+						bad = ""
+					} else {
+						bad = "on the success edge of " + disp.Name() + " resolve returns " + exprStr(ex.Ret.Results[0]) + ", not the built-in value"
+						break
+					}
+				}
+			}
+		}
+		r.Check(bad == "", "R18.1", top.Name()+"#builtin-forwarded", top.Decl.Pos(), true, "the built-in value found by the helper is returned unchanged", bad)
+	}
+	// precedes the registry lookup: on every path to findDescriptor the built-in test has been evaluated
+	bsol := tfl.Solve(Spec{Must: true,
+		Node: func(n ast.Node, in Facts) (gen, kill []string) {
+			for _, c := range callsIn(n, false) {
+				if disp != top && callee(tinfo, c) == disp.Obj {
+					gen = append(gen, "builtins-checked")
+				}
+			}
+			return
+		},
+		Edge: func(b *cfg.Block, i int, cond ast.Expr, in Facts) (gen, kill []string) {
+			if cond == nil || disp != top {
+				return
+			}
+			// the guard (Key/Group test) or a type test has been evaluated
+			for _, f := range append(condFacts(tinfo, cond, true), condFacts(tinfo, cond, false)...) {
+				if strings.Contains(f, ".Key=") || strings.Contains(f, ".Group=") {
+					gen = append(gen, "builtins-checked")
+				}
+			}
+			if _, ok := tests[cond]; ok {
+				gen = append(gen, "builtins-checked")
+			}
+			return
+		}})
+	n := 0
+	for _, nd := range tfl.Nodes() {
+		for _, c := range callsIn(nd, false) {
+			if cal := callee(tinfo, c); w.IsFn(cal, w.Godi, "(*provider).findDescriptor") {
+				n++
+				r.Check(bsol.Before[nd].Has("builtins-checked"), "R18.1", fmt.Sprintf("%s#lookup-after-builtins/%d", top.Name(), n), c.Pos(), true,
+					"the registry lookup is only reached after the built-in test", "the registry is consulted before the built-in services: a registration could shadow them")
+			}
+		}
+	}
 }
